@@ -169,7 +169,11 @@ func TestC06(t *testing.T) {
 			}
 		}
 		toks := gen.Print(tree, o).Toks
-		if rapid.IntRange(0, 2).Draw(rt, "mutate") > 0 {
+		switch rapid.IntRange(0, 3).Draw(rt, "mutate") {
+		case 0:
+		case 1:
+			toks = gen.NestInTermPosition(rt, toks)
+		default:
 			toks = mutateToks(rt, toks, pool)
 		}
 		c := TokCase{Toks: toks, DF: dfGen.Draw(rt, "df")}
